@@ -58,6 +58,8 @@ if [ -n "${VERIF_REPO:-}" ]; then
   # alternative tree (used by the sensitivity catalogue): point the replace at it
   sed "s#=> /repo#=> $REPO#" "$SIM/go.mod" >"$WORK/go.alt.mod"; cp "$SIM/go.sum" "$WORK/go.alt.sum"
   export GOFLAGS="$GOFLAGS -modfile=$WORK/go.alt.mod"
+  # evidence of a run against another tree must never replace the real evidence
+  export VERIF_EVIDENCE_DIR="${VERIF_EVIDENCE_DIR:-$WORK/evidence}"
 fi
 
 build_plain
